@@ -18,7 +18,9 @@ TStress == /\ Ev("crash.stress") /\ UNCHANGED <<done, seen>>
            /\ Flag(E.exit = "ok", "sacrificial process terminated abnormally (panic / fatal error) or wedged")
 \* the run covered every message type in both phases
 TCoverage == /\ Ev("crash.coverage") /\ UNCHANGED <<done, seen>>
-             /\ Flag(\A m \in MsgTypes : \E c \in Classes, p \in ServerPhases : <<m, c, p>> \in seen, "a message type of the alphabet was never sent")
+             /\ Flag(/\ \A m \in MsgTypes : \E c \in Classes, p \in ServerPhases : <<m, c, p>> \in seen
+                     /\ Cardinality({c \in Classes : <<"NewProxy", c, "used">> \in seen}) >= 3,
+                     "a message type of the alphabet was never sent (or no accepted definition was used for traffic)")
 \* the client-side run covered every message type on the control channel and every other place a server may speak
 TCoverageClient == /\ Ev("crash.coverage.client") /\ UNCHANGED <<done, seen>>
                    /\ Flag(/\ \A m \in MsgTypes : \E c \in Classes : <<m, c, "to-client-control">> \in seen
